@@ -286,7 +286,7 @@ def default_exc_name(e):
     return n
 
 
-def run_forked(fn, roots, plan=None, exc_name=default_exc_name):
+def run_forked(fn, roots, plan=None, exc_name=default_exc_name, after=None):
     """Run fn() in a forked child with the file system instrumented according to `plan`.
     Returns {"status","exc","steps","reads","faulted","detail"}.  The child never returns."""
     if isinstance(plan, dict) or plan is None:
@@ -306,6 +306,12 @@ def run_forked(fn, roots, plan=None, exc_name=default_exc_name):
             except BaseException as e:  # noqa: the caller's view of the operation
                 exc = exc_name(e) if isinstance(e, Exception) else type(e).__name__
                 detail = "".join(traceback.format_exception_only(type(e), e))[-300:]
+            if after is not None:
+                # the caller's view of its own objects once the operation is over (un-instrumented)
+                try:
+                    os.write(w, (json.dumps(["A", after()], default=str) + "\n").encode())
+                except BaseException as e:  # noqa
+                    os.write(w, (json.dumps(["A", {"error": type(e).__name__ + ": " + str(e)[:200]}]) + "\n").encode())
             os.write(w, (json.dumps(["E", exc, detail]) + "\n").encode())
         except BaseException:
             try:
@@ -339,6 +345,8 @@ def run_forked(fn, roots, plan=None, exc_name=default_exc_name):
             res["faulted"].append(rec[1])
         elif rec[0] == "N":
             res["noeffect"].append(rec[1])
+        elif rec[0] == "A":
+            res["after"] = rec[1]
         elif rec[0] == "E":
             done = True
             res["exc"], res["detail"] = rec[1], rec[2]
